@@ -17,11 +17,12 @@
 (* A call that is refused or fails leaves st untouched (9.3.1: the state is   *)
 (* replaced only in step 10, after a successful generate algorithm).         *)
 (*                                                                            *)
-(* Instantiation here = SM3 (outlen 32, seedlen 55 = 440 bits, Table 2) and   *)
-(* SM4 (keylen 16, blocklen 16, seedlen 32).  With Exact = FALSE the          *)
-(* cryptographic part is skipped (st carries only reseed_counter): this is    *)
-(* the envelope alone, valid for any primitive (SHA-2, AES) - used for        *)
-(* exhaustive exploration of op sequences where only refusals, errors and     *)
+(* Primitives (`alg`, chosen at instantiation): SM3 or SHA-256 (outlen 32,     *)
+(* seedlen 55 = 440 bits, Table 2; HMAC over the same), SM4 or AES-128/192/256 *)
+(* (blocklen 16, keylen 16/24/32, seedlen = keylen + blocklen).  With Exact =  *)
+(* FALSE the cryptographic part is skipped (st carries only reseed_counter):   *)
+(* this is the envelope alone, valid for any primitive (e.g. SHA-512) - used   *)
+(* for exhaustive exploration of op sequences where only refusals, errors and  *)
 (* the counter are compared.                                                  *)
 (*                                                                            *)
 (* Length rules (what the library's API pins; SP 800-90A leaves min_length    *)
@@ -39,33 +40,38 @@
 (* requests with the bytes SP 800-90A defines - modelled as the code does     *)
 (* (HmacMaxReq), see the C17 report.                                          *)
 EXTENDS Integers, Sequences
-CONSTANTS Exact,        \* BOOLEAN: compute bytes (SM3/SM4) or envelope only
+CONSTANTS Exact,        \* BOOLEAN: compute bytes or envelope only
           Interval,     \* reseed_interval (test level: 8)
           TimeLimit     \* GM mode: reseed required once now - lastReseed > TimeLimit (ms; test level 6000)
 B  == INSTANCE Bytes
 S3 == INSTANCE SM3
 S4 == INSTANCE SM4
+S2 == INSTANCE SHA256
+AE == INSTANCE AES
 HM == INSTANCE HMAC
 D  == INSTANCE Drbg
 
 VARIABLES inst,        \* BOOLEAN: instantiated
           mech,        \* "hash" | "hmac" | "ctr"
           gm,          \* BOOLEAN: GM/T 0105 mode
+          alg,         \* primitive: "sm3" | "sha256" (hash, hmac), "sm4" | "aes128" | "aes192" | "aes256" (ctr)
           st,          \* working state
           lastReseed,  \* clock value at the last successful instantiate/reseed
           now,         \* abstract clock (ms)
           reply
-dvars == <<inst, mech, gm, st, lastReseed, now, reply>>
+dvars == <<inst, mech, gm, alg, st, lastReseed, now, reply>>
 
 (* ---- primitive bindings ---- *)
-Sm3(m) == S3!Hash(m)
-HmKS(k) == HM!Sm3KeyState(k)
-HmMac(ks, x) == HM!Sm3MacKS(ks, x)
-Sm4KS(k) == S4!RoundKeys(k)
-Sm4Enc(rk, b) == S4!EncRK(rk, b)
-OutLen == 32            \* SM3, HMAC-SM3
+Sha256(m) == S2!Hash(m)
+HashOf(al, m) == IF al = "sha256" THEN S2!Hash(m) ELSE S3!Hash(m)
+(* HMAC(K, x) = MacOf(al, MacKSOf(al, K), x): for SM3 the two key blocks are absorbed once per key *)
+MacKSOf(al, k) == IF al = "sha256" THEN k ELSE HM!Sm3KeyState(k)
+MacOf(al, ks, x) == IF al = "sha256" THEN HM!Mac(Sha256, 64, ks, x) ELSE HM!Sm3MacKS(ks, x)
+CipKSOf(al, k) == IF al = "sm4" THEN S4!RoundKeys(k) ELSE AE!RoundKeys(k)
+CipEncOf(al, rk, b) == IF al = "sm4" THEN S4!EncRK(rk, b) ELSE AE!EncRK(rk, b)
+OutLen == 32            \* SM3, SHA-256 and HMAC over them
 SeedLen == 55           \* 440 bits for outlen <= 256 (SP 800-90A Table 2)
-KeyLen == 16
+KeyLenOf(al) == CASE al = "aes192" -> 24 [] al = "aes256" -> 32 [] OTHER -> 16
 BlockLen == 16
 
 (* ---- limits ---- *)
@@ -87,41 +93,56 @@ Full(r) == [V |-> D!Fix(r.V),                 \* concrete tuples in the state (s
             reseed_counter |-> r.reseed_counter]
 
 (* ---- the mechanisms, dispatched ---- *)
-DoInstantiate(m, e, n, p) ==
-  IF ~Exact THEN [Blank EXCEPT !.reseed_counter = 1]
-  ELSE CASE m = "hash" -> Full(D!HashInstantiate(Sm3, OutLen, SeedLen, e, n, p))
-         [] m = "hmac" -> Full(D!HmacInstantiate(HmKS, HmMac, OutLen, e, n, p))
-         [] m = "ctr"  -> Full(D!CtrInstantiate(Sm4KS, Sm4Enc, KeyLen, BlockLen, e, n, p))
-DoReseed(m, g, s, e, a) ==
-  IF ~Exact THEN [s EXCEPT !.reseed_counter = 1]
-  ELSE CASE m = "hash" -> Full(D!HashReseed(Sm3, OutLen, SeedLen, g, s, e, a))
-         [] m = "hmac" -> Full(D!HmacReseed(HmKS, HmMac, s, e, a))
-         [] m = "ctr"  -> Full(D!CtrReseed(Sm4KS, Sm4Enc, KeyLen, BlockLen, s, e, a))
-DoGenerate(m, g, s, n, a) ==      \* <<bytes, state>>
-  IF ~Exact THEN <<<<>>, [s EXCEPT !.reseed_counter = @ + 1]>>
-  ELSE LET r == CASE m = "hash" -> D!HashGenerate(Sm3, OutLen, SeedLen, g, s, n, a)
-                  [] m = "hmac" -> D!HmacGenerate(HmKS, HmMac, OutLen, s, n, a)
-                  [] m = "ctr"  -> D!CtrGenerate(Sm4KS, Sm4Enc, KeyLen, BlockLen, s, n, a)
-       IN <<D!Fix(r[1]), Full(r[2])>>
+DoInstantiate(al, m, e, n, p) ==
+  LET Hf(x) == HashOf(al, x)
+      MKf(k) == MacKSOf(al, k)
+      Mf(ks, x) == MacOf(al, ks, x)
+      CKf(k) == CipKSOf(al, k)
+      Ef(rk, b) == CipEncOf(al, rk, b)
+  IN IF ~Exact THEN [Blank EXCEPT !.reseed_counter = 1]
+     ELSE CASE m = "hash" -> Full(D!HashInstantiate(Hf, OutLen, SeedLen, e, n, p))
+            [] m = "hmac" -> Full(D!HmacInstantiate(MKf, Mf, OutLen, e, n, p))
+            [] m = "ctr"  -> Full(D!CtrInstantiate(CKf, Ef, KeyLenOf(al), BlockLen, e, n, p))
+DoReseed(al, m, g, s, e, a) ==
+  LET Hf(x) == HashOf(al, x)
+      MKf(k) == MacKSOf(al, k)
+      Mf(ks, x) == MacOf(al, ks, x)
+      CKf(k) == CipKSOf(al, k)
+      Ef(rk, b) == CipEncOf(al, rk, b)
+  IN IF ~Exact THEN [s EXCEPT !.reseed_counter = 1]
+     ELSE CASE m = "hash" -> Full(D!HashReseed(Hf, OutLen, SeedLen, g, s, e, a))
+            [] m = "hmac" -> Full(D!HmacReseed(MKf, Mf, s, e, a))
+            [] m = "ctr"  -> Full(D!CtrReseed(CKf, Ef, KeyLenOf(al), BlockLen, s, e, a))
+DoGenerate(al, m, g, s, n, a) ==      \* <<bytes, state>>
+  LET Hf(x) == HashOf(al, x)
+      MKf(k) == MacKSOf(al, k)
+      Mf(ks, x) == MacOf(al, ks, x)
+      CKf(k) == CipKSOf(al, k)
+      Ef(rk, b) == CipEncOf(al, rk, b)
+  IN IF ~Exact THEN <<<<>>, [s EXCEPT !.reseed_counter = @ + 1]>>
+     ELSE LET r == CASE m = "hash" -> D!HashGenerate(Hf, OutLen, SeedLen, g, s, n, a)
+                     [] m = "hmac" -> D!HmacGenerate(MKf, Mf, OutLen, s, n, a)
+                     [] m = "ctr"  -> D!CtrGenerate(CKf, Ef, KeyLenOf(al), BlockLen, s, n, a)
+          IN <<D!Fix(r[1]), Full(r[2])>>
 
 Ok(out) == [kind |-> "ok", out |-> out]
 Fail(k) == [kind |-> k, out |-> <<>>]
 
-DInit == /\ inst = FALSE /\ mech = "none" /\ gm = FALSE /\ st = Blank
+DInit == /\ inst = FALSE /\ mech = "none" /\ gm = FALSE /\ alg = "none" /\ st = Blank
          /\ lastReseed = 0 /\ now = 0 /\ reply = Ok(<<>>)
 
 (* reseed required? (SP 800-90A: reseed_counter > reseed_interval; GM/T 0105: or time elapsed) *)
 NeedReseed == st.reseed_counter > Interval \/ (gm /\ now - lastReseed > TimeLimit)
 
-Instantiate(m, g, e, n, p) ==
+Instantiate(m, g, al, e, n, p) ==
   /\ ~inst
   /\ IF Len(e) >= MinEntropyInst(m, g) /\ Len(n) >= MinNonce(m, g)
-     THEN /\ inst' = TRUE /\ mech' = m /\ gm' = g
-          /\ st' = DoInstantiate(m, e, n, p)
+     THEN /\ inst' = TRUE /\ mech' = m /\ gm' = g /\ alg' = al
+          /\ st' = DoInstantiate(al, m, e, n, p)
           /\ lastReseed' = now
           /\ reply' = Ok(<<>>)
      ELSE /\ reply' = Fail("err")
-          /\ UNCHANGED <<inst, mech, gm, st, lastReseed>>
+          /\ UNCHANGED <<inst, mech, gm, alg, st, lastReseed>>
   /\ UNCHANGED now
 
 Generate(n, a) ==
@@ -130,33 +151,33 @@ Generate(n, a) ==
      IF NeedReseed \/ big
      THEN /\ reply' = Fail(IF NeedReseed /\ big THEN "anyerr" ELSE IF big THEN "err" ELSE "reseed")
           /\ UNCHANGED st
-     ELSE \E r \in {DoGenerate(mech, gm, st, n, a)} :    \* evaluated once (an action-level LET is re-evaluated per use)
+     ELSE \E r \in {DoGenerate(alg, mech, gm, st, n, a)} :    \* evaluated once (an action-level LET is re-evaluated per use)
           /\ reply' = Ok(r[1])
           /\ st' = r[2]
-  /\ UNCHANGED <<inst, mech, gm, lastReseed, now>>
+  /\ UNCHANGED <<inst, mech, gm, alg, lastReseed, now>>
 
 Reseed(e, a) ==
   /\ inst
   /\ IF Len(e) >= MinEntropy(mech, gm)
-     THEN /\ st' = DoReseed(mech, gm, st, e, a)
+     THEN /\ st' = DoReseed(alg, mech, gm, st, e, a)
           /\ lastReseed' = now
           /\ reply' = Ok(<<>>)
      ELSE /\ reply' = Fail("err")
           /\ UNCHANGED <<st, lastReseed>>
-  /\ UNCHANGED <<inst, mech, gm, now>>
+  /\ UNCHANGED <<inst, mech, gm, alg, now>>
 
 Tick(dt) == /\ now' = now + dt
-            /\ UNCHANGED <<inst, mech, gm, st, lastReseed, reply>>
+            /\ UNCHANGED <<inst, mech, gm, alg, st, lastReseed, reply>>
 
 (* forget the object (a new recorded history / a failed constructor leaves nothing behind) *)
-Drop == /\ inst' = FALSE /\ mech' = "none" /\ gm' = FALSE /\ st' = Blank /\ lastReseed' = now
+Drop == /\ inst' = FALSE /\ mech' = "none" /\ gm' = FALSE /\ alg' = "none" /\ st' = Blank /\ lastReseed' = now
         /\ reply' = Ok(<<>>) /\ UNCHANGED now
 
 (* ------------------------------------------------------------- C17 on the model *)
 (* the counter never passes interval + 1: at most Interval generates between two (re)seeds *)
 CounterBound == inst => st.reseed_counter \in 1..(Interval + 1)
 (* a call that does not succeed changes nothing *)
-RefusalPure == [][reply'.kind # "ok" => UNCHANGED <<inst, mech, gm, st, lastReseed>>]_dvars
+RefusalPure == [][reply'.kind # "ok" => UNCHANGED <<inst, mech, gm, alg, st, lastReseed>>]_dvars
 (* output is produced only inside the limits: a step that advances the counter started at       *)
 (* reseed_counter <= Interval and, in GM mode, within the time limit; and every such step         *)
 (* advances the counter by exactly one                                                           *)
